@@ -380,9 +380,20 @@ def len_of_local(tr, operand, local):
     v = tr.value(operand)
     if v.kind == "call" and callee(v.term) == "core::slice::<impl [T]>::len":
         a = tr.value(v.term["args"][0])
-        if a.kind == "ref" and a.place.strip_deref() == NPlace(local, []):
+        if a.kind == "ref" and same_local(tr, a.place.strip_deref(), local):
             return True
     return False
+
+
+def same_local(tr, nplace, local):
+    """nplace denotes `local` - directly, or (when `local` is assigned exactly once, so that the tracer
+    sees through it) the place that single assignment copies."""
+    if nplace == NPlace(local, []):
+        return True
+    try:
+        return nplace == tr.nplace({"l": local, "p": []}).strip_deref()
+    except Exception:
+        return False
 
 
 def progress_guard(body, tr, hdr, loop_blocks, in_local, before_bb):
@@ -425,7 +436,7 @@ def progress_guard(body, tr, hdr, loop_blocks, in_local, before_bb):
                 if d[2] == "call" and callee(d[3]) == "core::slice::<impl [T]>::len" and \
                         body.dominates(bb, d[0]) and body.dominates(d[0], before_bb):
                     a0 = tr.value(d[3]["args"][0])
-                    if a0.kind == "ref" and a0.place.strip_deref() == NPlace(in_local, []):
+                    if a0.kind == "ref" and same_local(tr, a0.place.strip_deref(), in_local):
                         continue
                 ok = False
             if ok and n_in >= 1:
